@@ -534,3 +534,59 @@ Theorem C03_termination_demo_with_items :
   exists n, c_mode (run P n (start h s1)) = MDone (eval c01_demo).
 Proof. exact c01_demo_terminates. Qed.
 Print Assumptions C03_termination_demo_with_items.
+
+(* ==== the allocation bound and UNCONDITIONAL termination (proofs/MachineC03N.v, proofs/MachineC03A.v) ==== *)
+From Asynq Require Import proofs.MachineC03N proofs.MachineC03A.
+
+(* nf p: the number of futures the sequential evaluation of p creates (along Seq.eval) *)
+Theorem C03_nf_yield : forall s k, nf (Yield s k) = (list_sum (map nfl (leaves s)) + nf (k (unwrap leaf_out s)))%nat.
+Proof. exact nf_yield. Qed.
+Print Assumptions C03_nf_yield.
+
+(* the machine creates no more futures than the sequential evaluation: while the run has not unwound, the id
+   counter is at most 1 + nf p (the awaited task + the futures of the sequential evaluation).  Invariant: the
+   id counter + the sum over the ids of the remaining allocation of each uncomputed task (nf of the program in
+   MRun for the running task, nf of the generator applied to the specified outcome of the yielded structure
+   for a suspended one) <= 1 + nf p; only Yield changes it (proofs/MachineC03A.v: gq, inst_W, j_step). *)
+Theorem C03_allocation_bound_tree : forall P p n,
+  pointwise P -> tree p ->
+  let h := fst (create [] (FTask p) (st0 P)) in
+  let s1 := snd (create [] (FTask p) (st0 P)) in
+  (forall k, (k < n)%nat -> is_unwind (c_mode (run P k (start h s1))) = false) ->
+  (top_next (c_st (run P n (start h s1))) <= Z.of_nat (1 + nf p))%Z.
+Proof. exact alloc_bound_tree. Qed.
+Print Assumptions C03_allocation_bound_tree.
+
+(* TERMINATION of tree programs: the only hypothesis about the run is that the runaway guard never fires *)
+Theorem C03_terminates_tree : forall P p,
+  pointwise P -> tree p ->
+  let h := fst (create [] (FTask p) (st0 P)) in
+  let s1 := snd (create [] (FTask p) (st0 P)) in
+  (forall n, no_unwind P n (start h s1)) ->
+  exists n, c_mode (run P n (start h s1)) = MDone (eval p).
+Proof. exact terminates_tree. Qed.
+Print Assumptions C03_terminates_tree.
+
+(* with MAX_TASK_STACK_SIZE at least 1 + nf p the guard never fires ... *)
+Theorem C03_small_never_unwinds : forall P p,
+  pointwise P -> tree p -> (Z.of_nat (1 + nf p) <= p_maxstack P)%Z ->
+  forall n, no_unwind P n (start (fst (create [] (FTask p) (st0 P))) (snd (create [] (FTask p) (st0 P)))).
+Proof. exact small_never_unwinds. Qed.
+Print Assumptions C03_small_never_unwinds.
+
+(* ... and TERMINATION holds with NO hypothesis about the run at all *)
+Theorem C03_terminates_tree_small : forall P p,
+  pointwise P -> tree p -> (Z.of_nat (1 + nf p) <= p_maxstack P)%Z ->
+  exists n, c_mode (run P n (start (fst (create [] (FTask p) (st0 P))) (snd (create [] (FTask p) (st0 P))))) = MDone (eval p).
+Proof. exact terminates_tree_small. Qed.
+Print Assumptions C03_terminates_tree_small.
+
+(* sanity: the demo programs' finished runs created exactly 1 + nf p futures *)
+Theorem C03_nf_demos :
+  let P := mkP [] 1000 false [] in
+  (nf c01_demo = 4%nat /\ nf c03l_demo = 5%nat /\ nf c03t_demo = 4%nat) /\
+  (top_next (c_st (run P 41 (start (fst (create [] (FTask c01_demo) (st0 P))) (snd (create [] (FTask c01_demo) (st0 P)))))) = Z.of_nat (1 + nf c01_demo)) /\
+  (top_next (c_st (run P 80 (start (fst (create [] (FTask c03l_demo) (st0 P))) (snd (create [] (FTask c03l_demo) (st0 P)))))) = Z.of_nat (1 + nf c03l_demo)) /\
+  (top_next (c_st (run P 36 (start (fst (create [] (FTask c03t_demo) (st0 P))) (snd (create [] (FTask c03t_demo) (st0 P)))))) = Z.of_nat (1 + nf c03t_demo)).
+Proof. exact nf_demos. Qed.
+Print Assumptions C03_nf_demos.
